@@ -14,6 +14,10 @@ RULE = ("TLC enumerates goal regions per dimension and hands each one over with 
         "plus 400 (thorough 4000) seeded random regions of 1..3 goal states with larger values, 30 states and up to 4 "
         "trajectories each. Goal states are built as KSState and as CustomState (alternating by case); lanelet goals "
         "as the ShapeGroup of lanelet polygons looked up in a LaneletNetwork + lanelets_of_goal_position. "
+        "Moved goals: 8 position goals x 8 lattice motions (translation, quarter turns) and 4 angle goals x 4 "
+        "motions, each cold and after a first query (warm), moved through GoalRegion / PlanningProblem / "
+        "PlanningProblemSet.translate_rotate (cycling), then queried on the moved 13x13 probe grid + 25 probes at the old "
+        "location and 6 trajectories; every second random case moves its goal as well. "
         "Signatures: exceptions are grouped by goal shape / angle-interval length class / value type, wrong verdicts "
         "by goal shape / heading group of the point-mass state. "
         "distinct_nontrivial = distinct goal regions with at least one constraint besides time.")
@@ -26,7 +30,10 @@ ASSUMPTIONS = ["time_step is mandatory in a goal state (GoalRegion rejects goal 
                "so discs have no band",
                "point-mass velocity vectors lie on the 8 compass directions (or are (0,0)) whenever the goal "
                "constrains the orientation; atan2 of those equals the grid float exactly (checked on this machine)",
-               "expected verdicts are computed by TLC from Goal.tla!Reached / GoalReachedV / IndexOk, never in Python"]
+               "moved goals: motions are integer/half-integer translations and quarter turns, exact on the lattice; after "
+               "a quarter turn (q != 0) pure boundary contact and angle-interval end points are EITHER (cos(pi/2) = 6e-17), "
+               "interior and exterior probes must be decided; for q = 0 everything is exact",
+               "expected verdicts are computed by TLC from Goal.tla!Reached / GoalReachedV / IndexOk / MovedReached, never in Python"]
 
 _DIRS = {(1, 0): "E", (1, 1): "NE", (0, 1): "N", (-1, 1): "NW", (-1, 0): "W", (-1, -1): "SW", (0, -1): "S",
          (1, -1): "SE", (0, 0): "zero"}
@@ -92,7 +99,7 @@ def _sig(op, goal, s, res):
 
 
 def model_check(ctx):
-    ctx.mc("MC_Goal", "MC_Goal_t.cfg" if ctx.thorough else "MC_Goal.cfg", coverage=True, timeout=1800)
+    ctx.mc("MC_Goal", "MC_Goal_t.cfg" if ctx.thorough else "MC_Goal.cfg", coverage=ctx.thorough, timeout=3000)
 
 
 # ---- seeded random cases: same descriptor language, larger values --------------------------------------------------
